@@ -185,9 +185,20 @@ def run(ctx):
         T = M if rng.random() < 0.5 else M[:3, :]
         desc = {"R": R.tolist(), "scale": f"2^-{k}", "det": det * sc ** 3}
         try:
-            v2, t2 = mesh_mod.affine_transform_mesh(verts.copy(), tris.copy(), T)
+            # the SAME vertex and triangle arrays go through the function twice (inner and outer surface sharing one
+            # topology, or the same mesh placed with two transforms): both results are judged after the second call
+            verts_in, tris_in = verts.copy(), tris.copy()
+            v2a, t2a = mesh_mod.affine_transform_mesh(verts_in, tris_in, T)
+            v2, t2 = mesh_mod.affine_transform_mesh(verts_in, tris_in, T)
         except Exception as exc:  # noqa
             ctx.oracle_fail(f"affine_transform_mesh raised {type(exc).__name__}", desc)
+            continue
+        if not np.array_equal(tris_in, tris) or not np.array_equal(verts_in, verts):
+            ctx.oracle_fail("affine_transform_mesh modified the mesh it was given (the caller's triangles no longer have "
+                            "their winding)", desc)
+            continue
+        if not np.array_equal(np.asarray(t2a), np.asarray(t2)) or not np.array_equal(np.asarray(v2a), np.asarray(v2)):
+            ctx.oracle_fail("two identical calls of affine_transform_mesh on the same arrays give different meshes", desc)
             continue
         ctx.case(("affine", R.tobytes(), k, verts.tobytes(), tris.tobytes()))
         ctx.hist("affine_det_sign", "neg" if det < 0 else "pos")
